@@ -1,6 +1,35 @@
 /-
-  Property C09 — property theorems only (helper lemmas live next to the model).
-  Stub: nothing claimed yet.
+  Property C09 — Epoch: nothing becomes reclaimable while a reader that may see it is in a region.
+  Property theorems only; the model is Babylon/Epoch/Model.lean over the view memory model
+  Babylon/Core/MemView.lean, helper lemmas and invariants are in Babylon/Epoch/Lemmas*.lean.
 -/
+import Babylon.Epoch.Model
+
 namespace Babylon.Properties.C09
+open Babylon.Epoch Babylon.Gen.Epoch Babylon.Core Babylon.Core.MemView
+
+/-! ### Generated obligations: the source is the one the model was written against -/
+
+theorem gen_skel_lock : skel_lock = Skel.lock := by decide
+theorem gen_skel_unlock : skel_unlock = Skel.unlock := by decide
+theorem gen_skel_lock_tls : skel_lock_tls = Skel.lock_tls := by decide
+theorem gen_skel_unlock_tls : skel_unlock_tls = Skel.unlock_tls := by decide
+theorem gen_skel_create_accessor : skel_create_accessor = Skel.create_accessor := by decide
+theorem gen_skel_accessor_plumbing :
+    skel_accessor_number = Skel.accessor_number ∧ skel_unregister_accessor = Skel.unregister_accessor ∧
+    skel_accessor_lock = Skel.accessor_lock ∧ skel_accessor_unlock = Skel.accessor_unlock ∧
+    skel_accessor_release = Skel.accessor_release := by decide
+theorem gen_skel_low_water_mark : skel_low_water_mark = Skel.low_water_mark := by decide
+theorem gen_skel_ensure_slow : skel_ensure_slow = Skel.ensure_slow ∧ ensureCasStrong = true := by decide
+/-- the preprocessor of this build selects the x86 branch of `tick`: one `seq_cst` RMW -/
+theorem gen_skel_tick : skel_tick = Skel.tick_x86 ∧ tickSelectedIsX86 = true ∧ tickFenceOrd = none := by decide
+/-- structure of lock / unlock / tick / low_water_mark the model hard-wires -/
+theorem gen_structure :
+    lockDepthStep = 1 ∧ lockPublishDepth = 1 ∧ lockStoresLoadedVersion = true ∧ lockIndexesSlotsByIndex = true ∧
+    unlockClearDepth = 1 ∧ unlockDepthStep = 1 ∧ unlockStoresMax = true ∧
+    tickReturnPlus = 1 ∧ tickIncrement = 1 ∧
+    scanBoundIsMinCountSize = true ∧ scanCountFromAccessorNumber = true ∧ scanFallsBackToThreadIds = true ∧
+    scanStartsFromMax = true ∧ scanTakesMinimum = true ∧ scanSnapshotBeforeCount = true ∧
+    slotInitIsMax = true ∧ slotInitLockTimes = 0 ∧ versionOffset = 0 ∧ maxVersion = 2 ^ 64 - 1 := by decide
+
 end Babylon.Properties.C09
